@@ -323,6 +323,17 @@ func (w *brWorld) relayerOp() {
 			req.Removes = append(req.Removes, &goattypes.RemoveVoterRequest{Voter: common.BytesToAddress(v.Addr)})
 			rC = append(rC, cAddr20(v.Addr))
 		}
+		if sd := r.Side(23); sd.Chance(14) {
+			// a list asking to remove every current member (the last one must stay), as can happen again in the next block
+			rel := w.relayer()
+			for _, a := range append([]string{rel.Proposer}, rel.Voters...) {
+				if v, ok := w.byAddr[a]; ok {
+					req.Removes = append(req.Removes, &goattypes.RemoveVoterRequest{Voter: common.BytesToAddress(v.Addr)})
+					rC = append(rC, cAddr20(v.Addr))
+				}
+			}
+			w.st.Count("relayerreq:remove-every-member")
+		}
 		cls, _ := w.e.Tx(func(c sdk.Context) error { return k.ProcessRelayerRequest(c, req) })
 		w.addOp(fmt.Sprintf("(BRelayerReq %d %s %s)", w.height, cList(aC), cList(rC)), cls, nil, lkOpRec{Kind: "relayerreq", Args: map[string]any{"adds": len(req.Adds), "removes": len(req.Removes)}})
 		w.sig.WriteString(fmt.Sprintf("M%d%d", len(req.Adds), len(req.Removes)))
@@ -365,6 +376,7 @@ func (w *brWorld) relayerOp() {
 				variant = "other-bls-key-self-consistent"
 				docHash = blsKey.BlsHash
 			}
+
 		case y < 72:
 			variant = "bls-proof-by-other"
 			blsSigner = w.voters[(v.Idx+1)%len(w.voters)]
@@ -383,6 +395,12 @@ func (w *brWorld) relayerOp() {
 		default:
 			variant = "wrong-proposer-in-doc"
 			docProp = w.voters[(v.Idx+3)%len(w.voters)].AddrStr
+		}
+		if sd := r.Side(19); variant == "honest" && sd.Chance(18) {
+			variant = "other-bls-key-self-consistent"
+			blsKey = w.voters[(v.Idx+1+sd.Intn(3))%len(w.voters)]
+			blsSigner = blsKey
+			docHash = blsKey.BlsHash
 		}
 		doc := signDoc("Relayer/NewVoter", docChain, docProp, 0, docEpoch, append(append(le64b(docHeight), v.Addr...), docHash...))
 		txProof := ecdsaProof(txSigner, doc)
